@@ -469,7 +469,9 @@ def inspectOf (env : NameEnv) (d : DefArgs) : ISig :=
         | some a => [⟨a.name, .varKw, none, a.ann.map (annObject env d.future)⟩]
         | none => []),
     returns := d.returns.map (annObject env d.future),
-    methodOf := d.methodOf }
+    methodOf := d.methodOf,
+    -- CPython sets CO_COROUTINE exactly for an `async def` without `yield`
+    isAsync := d.kind == .coro }
 
 /-! ## header-level classes -/
 
